@@ -223,7 +223,10 @@ CONFIG_OPS = [
     Op("alphabet", _op_alpha, "config"), Op("mutate-alphabet", _op_mut_alpha, "mutate"),
 ]
 TRANSLATE_OPS = [
-    op_dec("[Si][=C][N+1][Ring1][Ring1]"), op_dec("[C][Xe][Foo]"), op_dec("[C][N].[O]", attribute=True),
+    op_dec("[Si][=C][N+1][Ring1][Ring1]"), op_dec("[C][Xe][Foo]"),
+    op_dec("[C][C][C][Ring1][Ring1][Branch1][Ring1][C][Foo]"),          # fails with a ring queued and a branch open
+    op_dec("[C][C][=Ring1][C].[N][C][C][Ring1][Ring2][CH9]", attribute=True),   # fails in the 2nd fragment, rings pending
+    op_enc("C1CC1C(C)(C"), op_enc("c1ccccc1C(F)(F)(F)(F)F"), op_enc("C1CC1c1cccc1", attribute=True),   # fail late op_dec("[C][N].[O]", attribute=True),
     op_dec("[C@@Hexpl][Branch1_2][C][O]", compatible=True), op_dec("[CH1][#C][Fe+10]"),
     op_enc("c1ccccc1[Si]"), op_enc("C(F)(F)(F)(F)F"), op_enc("CN", attribute=True), op_enc("C(F)(F)(F)(F)F", strict=False),
     op_enc("[CH]1=[N+]C1"),
